@@ -118,6 +118,8 @@ static std::vector<std::string> make_pool(vf::Rng &r, unsigned kind) {
             break;
         case 1: // full 32-bit collisions: the hash ignores the first unit
             p = {"ax", "bx", "cx", "dx", "ex", "fx", "gx", "hx", "ix", "jx", "a", "x"};
+            // ... and pairs with equal hash where one key is a proper prefix of the other (only the length differs)
+            if (r.chance(1, 2)) p = {"s", "sh", "t", "ti", "l", "la", "m", "mb", "x", "xm", "ax", "bx"};
             break;
         case 2: // embedded NULs and the empty key
             p = {std::string("a\0b", 3), std::string("a\0c", 3), std::string("\0", 1), std::string("\0\0", 2), "", "a", std::string("ab\0", 3), "ab"};
